@@ -20,46 +20,6 @@ proof fn lemma_insert_keeps_reach(t: &RawTableInner, t2: &RawTableInner, idx: in
     assert(t2.reach_at(i, h, k));
 }
 
-// ((p + b) % n - p) % n == b: bucket (p + b) % n sits at offset b of the window that starts at p
-proof fn lemma_window_offset(p: int, b: int, n: int)
-    requires 0 <= p < n, 0 <= b < n,
-    ensures ((p + b) % n - p) % n == b,
-{
-    lemma_small_mod(b as nat, n as nat);
-    if p + b < n {
-        lemma_small_mod((p + b) as nat, n as nat);
-    } else {
-        let s = p + b - n;
-        lemma_small_mod(s as nat, n as nat);
-        lemma_mod_add_multiples_vanish(s, n);
-        assert((p + b) % n == s);
-        lemma_mod_add_multiples_vanish(b - n, n);
-        assert((b - n) % n == b);
-    }
-}
-
-// what find_insert_slot establishes at the point where it returns from window k: the bucket it found in
-// that window (any bucket at all for tables smaller than a group) is reachable for the hash it probed with
-proof fn lemma_slot_reach(t: &RawTableInner, h: u64, k: nat, g: nat, pos: int, b: int, idx: int, i: int)
-    requires
-        t.shape(),
-        t.nb() >= Group::WIDTH ==> t.nb() == Group::WIDTH * pow2(g) && (k as int) < pow2(g),
-        t.nb() < Group::WIDTH ==> k == 0,
-        pos == spec_pos(h as usize as int, t.nb(), k), 0 <= pos < t.nb(),
-        0 <= b < Group::WIDTH, idx == (pos + b) % t.nb(),
-        forall|j: nat, tt: int| j < k && 0 <= tt < Group::WIDTH ==> #[trigger] t.win(spec_pos(h as usize as int, t.nb(), j), tt) < 0x80u8,
-        0 <= i < t.nb(), t.nb() >= Group::WIDTH ==> i == idx,
-    ensures
-        t.reach_at(i, h, k),
-{
-    let n = t.nb();
-    lemma_mod_bound(i - pos, n);
-    if n >= Group::WIDTH {
-        lemma_window_offset(pos, b, n);
-        assert(n / (Group::WIDTH as int) == pow2(g)) by(nonlinear_arith) requires n == Group::WIDTH * pow2(g), Group::WIDTH > 0;
-    }
-}
-
 // L5: lookup is complete.  A bucket i that is reachable for hash h, carries h's tag and is accepted by eq
 // contradicts the certificate find_inner returns with `None` -- so find_inner cannot answer None for it.
 proof fn lemma_find_complete(t: &RawTableInner, i: int, h: u64, kk: nat, f: spec_fn(usize) -> bool)
